@@ -27,10 +27,58 @@ def run_dec_search(ctx, prefixes, flavours=("asan", "O1")):
     return tot, dist, fails, samples, stats
 
 def standard(ctx, mod, prefixes, rule):
+    import importlib
     lib = V.build_repo(ctx, "O1")
-    proof_ok = V.coq_check_properties(ctx, mod.PROP_FILE)
+    subs = [importlib.import_module(n) for n in getattr(mod, "SUBCHECKS", [])]   # modelled decoders checked as part of this property
+    proof_ok = V.coq_check_many(ctx, [mod.PROP_FILE] + [s.PROP_FILE for s in subs])
     ctx.say("proofs: %d/%d %s" % (ctx.proof["discharged"], ctx.proof["obligations"], "ok" if proof_ok else "BROKEN"))
     tot, dist, fails, samples, stats = run_dec_search(ctx, prefixes)
+    corr = []
+    if subs:
+        corr, sfails, stot, sdist, ssamples, skinds, drv_ok = V.run_corr_runs(ctx, lib, [(s, r) for s in subs for r in s.corr_runs(ctx)])
+        proof_ok = proof_ok and drv_ok
+        fails += sfails; tot += stot; dist += sdist; samples = (samples + ssamples)[:14]
+        ctx.cov["kinds"] = skinds
+        ctx.cov["disagreements"] = sum(len(m) for (_, _, m, _) in corr)
+        ctx.cov["traces_validated_against_impl"] = stot
+        rule += "".join(" || sub-check %s: %s" % (s.__name__, s.RULE) for s in subs)
     ctx.cov.update({"evaluations": tot, "distinct_nontrivial": dist, "rule": rule, "samples": samples,
                     "search_stats": stats, "direct_failures": len(fails)})
-    V.standard_decide(ctx, proof_ok, [], fails, getattr(mod, "classify", None))
+    for s in subs:
+        if getattr(s, "extra", None):
+            s.extra(ctx, lib)
+    V.standard_decide(ctx, proof_ok, corr, fails, getattr(mod, "classify", None))
+
+def replay(ctx, path, prefixes, mod=None):
+    """Re-run the bytes of a recorded search failure through every decoder entry point of the CURRENT tree (ASan+UBSan and O1 builds)."""
+    import json, importlib
+    d = json.load(open(path))
+    for sn in getattr(mod, "SUBCHECKS", []) if mod else []:   # a case of a sub-check's own harness: that module replays it
+        sm = importlib.import_module(sn)
+        if any(r["tag"] == d.get("harness") for r in sm.corr_runs(ctx)):
+            return V.standard_replay(ctx, sm, path)
+    print(json.dumps({k: (v if len(str(v)) < 300 else str(v)[:300] + "...") for k, v in d.items()}, indent=1))
+    case = d.get("case", "")
+    toks = case.split()
+    hx = toks[-1] if toks and re.fullmatch(r"[0-9a-f]+|-", toks[-1]) else None
+    if hx is None:
+        print("no input bytes in this replay file (proof / infrastructure violation): see 'failures'")
+        return 0
+    hexfile = os.path.join(V.BUILD, "replay_%s.hex" % ctx.prop)
+    open(hexfile, "w").write(hx + "\n")
+    env = {"ASAN_OPTIONS": "detect_leaks=0:allocator_may_return_null=1:abort_on_error=1", "UBSAN_OPTIONS": "halt_on_error=1:abort_on_error=1"}
+    hit = []
+    for fl in ("asan", "O1"):
+        lib = V.build_repo(ctx, fl)
+        h = V.build_harness(ctx, "dec", lib, fl)
+        out = os.path.join(V.BUILD, "replay_%s_%s.out" % (ctx.prop, fl))
+        V.sh([h, "one", hexfile, out], timeout=600, env=env)
+        for l in open(out):
+            if l.startswith("!") and any(l.startswith("! " + p) for p in prefixes):
+                hit.append("[%s] %s" % (fl, l.strip()[:300]))
+            elif l.startswith("# STATS"):
+                print("[%s] %s" % (fl, l[2:].strip()))
+    for l in hit:
+        print(l)
+    print("REPRODUCED" if hit else "not reproduced on the current tree")
+    return 1 if hit else 0
